@@ -55,6 +55,9 @@ def main(path):
         print('NOT-REPRODUCED')
         return 0
     same_digest = doc.get('digest') in (None, rec.get('digest'))
+    if not same_digest:
+        print(f"HARNESS-ERROR nondeterminism: the violation reproduces but the event log differs ({rec.get('digest')} != {doc.get('digest')})")
+        return 2
     print(f"REPRODUCED property={doc['property']} {v['cls']}/{v['cause']} digest_match={same_digest}")
     print(f"VIOLATION property={doc['property']} replay={path}")
     return 1
